@@ -303,7 +303,7 @@ func destCode(s string) int {
 
 func runC05(c *Ctx) error {
 	r := c.Rng.Fork()
-	n := c.N(45, 600)
+	n := c.N(36, 500)
 	for i := 0; i < n; i++ {
 		cr := r.Fork()
 		signed := genSignedBuild(cr)
